@@ -1,1 +1,104 @@
 // Kani harnesses compiled inside rs-matter/src/transport/network/btp/gatt.rs (module `verif_kani`).
+
+mod c17 {
+    use super::*;
+
+    fn collect<const M: usize>(it: impl Iterator<Item = u8>) -> ([u8; M], usize) {
+        let mut out = [0u8; M];
+        let mut n = 0;
+        for b in it {
+            if n < M {
+                out[n] = b;
+            }
+            n += 1;
+        }
+        (out, n)
+    }
+
+    // TIER: quick
+    // KIND: complete (all VID, PID, 12-bit discriminators, flag values)
+    #[kani::proof]
+    #[kani::unwind(20)]
+    fn c17_ble_adv_roundtrip() {
+        let adv = AdvData {
+            vid: kani::any(),
+            pid: kani::any(),
+            discriminator: kani::any(),
+            additional_data: kani::any(),
+        };
+        kani::assume(adv.discriminator < (1 << 12)); // legal: a 12-bit field
+
+        let (raw, n) = collect::<15>(adv.iter());
+        kani::assert(n == 15, "C17.ble_adv.encoded_length");
+        let d = adv.discriminator.to_le_bytes();
+        let v = adv.vid.to_le_bytes();
+        let p = adv.pid.to_le_bytes();
+        kani::assert(
+            raw == [2, 0x01, 0x06, 11, 0x16, 0xF6, 0xFF, 0, d[0], d[1], v[0], v[1], p[0], p[1], adv.additional_data as u8],
+            "C17.ble_adv.layout"
+        );
+        kani::assert(AdvData::parse_adv(&raw) == Some(adv), "C17.ble_adv.roundtrip.full_advertisement");
+        let (sd, m) = collect::<8>(adv.service_payload_iter());
+        kani::assert(m == 8 && AdvData::parse_service_data(&sd) == Some(adv), "C17.ble_adv.roundtrip.service_data");
+        // a commissionable advertisement is not a network-recovery one
+        kani::assert(RecoveryAdvData::parse_adv(&raw).is_none(), "C17.ble_adv.not_a_recovery_advertisement");
+        kani::cover!(adv.discriminator == 0xFFF && adv.additional_data, "largest discriminator");
+    }
+
+    // TIER: quick
+    // KIND: complete (all recovery ids, flag values)
+    #[kani::proof]
+    #[kani::unwind(22)]
+    fn c17_ble_recovery_adv_roundtrip() {
+        let adv = RecoveryAdvData {
+            recovery_id: kani::any(),
+            additional_data: kani::any(),
+        };
+        let (raw, n) = collect::<18>(adv.iter());
+        kani::assert(n == 18, "C17.ble_recovery.encoded_length");
+        kani::assert(
+            raw[..9] == [2, 0x01, 0x05, 14, 0x16, 0xF6, 0xFF, 1, 0] && raw[17] == adv.additional_data as u8,
+            "C17.ble_recovery.layout"
+        );
+        let j: usize = kani::any();
+        if j < 8 {
+            kani::assert(raw[9 + j] == adv.recovery_id[j], "C17.ble_recovery.layout_id");
+        }
+        kani::assert(RecoveryAdvData::parse_adv(&raw) == Some(adv), "C17.ble_recovery.roundtrip.full_advertisement");
+        kani::assert(AdvData::parse_adv(&raw).is_none(), "C17.ble_recovery.not_a_commissionable_advertisement");
+    }
+
+    /// Decoders on ARBITRARY advertising blobs of 0..=16 bytes: a value or `None`, never a panic;
+    /// an accepted commissionable payload has a 12-bit discriminator.
+    // TIER: thorough
+    // KIND: bounded (advertising data <= 16 bytes)
+    #[kani::proof]
+    #[kani::unwind(19)]
+    fn c17_ble_adv_parse_total() {
+        const L: usize = 16;
+        let bytes: [u8; L] = kani::any();
+        let len: usize = kani::any();
+        kani::assume(len <= L);
+        let blob = &bytes[..len];
+
+        let a = AdvData::parse_adv(blob);
+        let r = RecoveryAdvData::parse_adv(blob);
+        if let Some(a) = &a {
+            kani::assert(a.discriminator < (1 << 12), "C17.ble_adv.parse.discriminator_in_range");
+            // re-encoding an accepted advertisement and parsing it again is the identity
+            let (sd, _) = collect::<8>(a.service_payload_iter());
+            kani::assert(AdvData::parse_service_data(&sd) == Some(*a), "C17.ble_adv.parse.value_is_canonical");
+        }
+        kani::assert(a.is_none() || r.is_none(), "C17.ble_adv.parse.kinds_are_disjoint");
+        // the service-data decoders on arbitrary payloads
+        let s = AdvData::parse_service_data(blob);
+        kani::assert(s.is_some() == (len >= 8 && bytes[0] == 0), "C17.ble_adv.parse.service_data_accepted_iff_opcode0_and_long_enough");
+        let t = RecoveryAdvData::parse_service_data(blob);
+        kani::assert(t.is_some() == (len >= 11 && bytes[0] == 1), "C17.ble_recovery.parse.service_data_accepted_iff_opcode1_and_long_enough");
+
+        kani::cover!(a.is_some() && len == 15, "commissionable advertisement found");
+        kani::cover!(a.is_some() && bytes[1] != 0x16, "found behind another record");
+        kani::cover!(a.is_none() && len == L, "nothing found in a full blob");
+        kani::cover!(len == 0, "empty");
+    }
+}
